@@ -273,6 +273,8 @@ def py_eq(a, b):
     for x, y in ((a, b), (b, a)):
         if isinstance(x, SV) and x.ty.kind == "u" and x.ty.name in STR_VIEW and (isinstance(y, (str, EnumVal)) or (isinstance(y, SV) and y.ty == TName)):
             return py_eq(STR_VIEW[x.ty.name](x), y)  # str subclasses (lark Token) compare by text
+    if CURRENT_MODE[0] == "code" and isinstance(a, SV) and isinstance(b, SV) and a.ty == b.ty and a.ty.kind == "u" and a.ty.name in EQ_HOOK:
+        return EQ_HOOK[a.ty.name](a, b)  # python-level __eq__ of the class (attrs equality), not identity
     if a is None or b is None:
         sv = a if isinstance(a, SV) else b
         if sv.ty.kind == "opt":
@@ -361,6 +363,8 @@ def arith(op, a, b):
 
 
 SYM_ARITH: dict = {}  # sort name -> handler(op, a, b)
+CURRENT_MODE = ["spec"]  # set by the interpreter: `==` in real code is the class's __eq__, in contracts it is identity
+EQ_HOOK: dict = {}  # sort name -> callable(a, b) -> SV bool
 STR_VIEW: dict = {}  # sort name -> callable(sv) -> SV Name: objects that are str subclasses
 TRUTH: dict = {}  # sort name -> callable(sv) -> z3 Bool (python truthiness of such objects)
 NONE_TEST: dict = {}  # sort name -> callable(sv) -> SV bool  (value may be None)
